@@ -35,6 +35,8 @@ TARGETS = {
     "shape": ('<rect x="8" y="8" width="84" height="84" fill="red"{c}{t}/>', ""),
     "eoshape": ('<polygon points="50,5 78,92 5,35 95,35 22,92" fill="blue" fill-rule="evenodd"{c}{t}/>', ""),
     "group": ('<g{c}{t}><rect x="8" y="8" width="60" height="60" fill="red"/><circle cx="60" cy="60" r="32" fill="green"/></g>', ""),
+    # the same clipPath referenced by siblings (and use instances) that have different transforms of their own
+    "twins": ('<g><rect x="8" y="8" width="60" height="60" fill="red"{c} transform="translate(14,9)"/><circle cx="55" cy="55" r="34" fill="green"{c}{t}/><use xlink:href="#tw"{c} transform="rotate(8) translate(-6,4)"/></g>', '<rect id="tw" x="20" y="30" width="70" height="40" fill="navy"/>'),
     "use": ('<use xlink:href="#tg"{c}{t} x="3" y="2"/>', '<g id="tg"><rect x="8" y="8" width="80" height="50" fill="orange"/><circle cx="50" cy="65" r="28" fill="purple"/></g>'),
 }
 
@@ -87,8 +89,8 @@ def all_cases(tier):
     child1 = [(s, r) for s in shapes for r in RULES]
     # k = 1: full product
     for (s, r), tchild, cp_t, target, target_t, nested, anc in itertools.product(child1, (False, True), (False, True), TARGETS, (False, True), (False, True), (0, 1, 2)):
-        if cp_t and nested:
-            continue  # user space of the inner reference is ambiguous in the specification text
+        if cp_t and nested and (tier == "quick" and (anc or tchild)):
+            continue  # clipPath with a transform AND a clip-path of its own: kept to a sub-product in quick
         if tier == "quick" and anc == 2 and (target_t or tchild):
             continue
         yield ([(s, r, tchild)], cp_t, target, target_t, nested, anc)
@@ -98,7 +100,7 @@ def all_cases(tier):
     for (a, b) in itertools.product(child2, repeat=2):
         if a[1] == "eo-inherit" and b[1] == "nz":
             continue  # the inherited rule would apply to both children
-        for tchild, cp_t, target, anc in itertools.product((False, True), (False, True), ("shape", "group") if tier == "quick" else TARGETS, (0, 1)):
+        for tchild, cp_t, target, anc in itertools.product((False, True), (False, True), ("shape", "group", "twins") if tier == "quick" else TARGETS, (0, 1)):
             if tier == "quick" and (tchild and cp_t):
                 continue
             yield ([(a[0], a[1], tchild), (b[0], b[1], False)], cp_t, target, False, False, anc)
@@ -157,7 +159,7 @@ def run(run):
         "E2 + R3: clipPath with k children from {rect, circle, triangle, pentagram (nonzero != evenodd), two nested same-direction squares}, k = 1 full product, k = 2 over "
         "15 (shape, rule) options, k = 3 over a 3-shape library (thorough) x clip-rule {nonzero, evenodd on the child, evenodd in the child's style, evenodd inherited from the clipPath element} "
         "x transform on clipPath x transform on child x target {nonzero shape, evenodd self-overlapping shape, group of two shapes, use} x target transform x clipPath clipped by a second "
-        "clipPath x 0-2 clipped+transformed ancestor groups (clipPath transform together with a nested clip-path is excluded as ambiguous). Oracle: paint stacks/composites of source vs "
+        "clipPath x 0-2 clipped+transformed ancestor groups. A clipPath that has a transform and a clip-path of its own is read as: the inner reference is resolved in the user space that includes the clipPath's transform (by analogy with clip-path on any other transformed element). Oracle: paint stacks/composites of source vs "
         "output equal outside the band; no clip-path/clipPath in the output (R4). Non-trivial = the clip removes >= 20 and keeps >= 20 lattice points of the unclipped target."
     )
     run.assumptions = ["clipPathUnits=objectBoundingBox and clip-path on clipPath children are outside the statement's grammar"]
